@@ -55,6 +55,10 @@ func peerIP(kind string) net.IP {
 	switch kind {
 	case "route":
 		return net.IPv4(10, 1, 0, 5)
+	case "gwless":
+		return net.IPv4(10, 2, 0, 9)
+	case "onlink":
+		return net.IPv4(10, 3, 0, 9)
 	case "none":
 		return net.IPv4(172, 16, 9, 9)
 	}
@@ -160,13 +164,17 @@ type canaryRig struct {
 
 func newCanaryRig(start bool) (*canaryRig, error) {
 	_, net10, _ := net.ParseCIDR("10.1.0.0/16")
+	_, netGwless, _ := net.ParseCIDR("10.2.0.0/16") // via a gateway that has no ARP entry
+	_, netOnlink, _ := net.ParseCIDR("10.3.0.0/16") // on link: no gateway, senders not in the cache
 	c, peer, err := canary.VerifNew(&captureChannel{Name: "canary"},
 		[]canary.VerifPeer{
 			{IP: net.IPv4(10, 0, 0, 2), MAC: macPeer},
 			{IP: net.IPv4(10, 0, 0, 3), MAC: macPeer},
 			{IP: net.IPv4(10, 0, 0, 254), MAC: net.HardwareAddr{0x02, 0, 0, 0, 0, 0xfe}},
 		},
-		[]canary.VerifRoute{{Destination: *net10, Gateway: net.IPv4(10, 0, 0, 254)}})
+		[]canary.VerifRoute{{Destination: *net10, Gateway: net.IPv4(10, 0, 0, 254)},
+			{Destination: *netGwless, Gateway: net.IPv4(10, 0, 0, 253)},
+			{Destination: *netOnlink, Gateway: net.IPv4zero}})
 	if err != nil {
 		return nil, err
 	}
